@@ -1,7 +1,7 @@
 #!/bin/bash
 # usage: tools/muttest.sh <patch.diff | mutation.py> <prop>...   -- runs the checks against a scratch worktree with the change applied
 set -u
-W=/tmp/rw
+W=${MUT_W:-/tmp/rw}
 [ -d $W ] || git -C /repo worktree add -q --detach $W HEAD
 git -C $W checkout -q --detach main 2>/dev/null; git -C $W checkout -q -- .
 ch=$1; shift
@@ -11,6 +11,6 @@ case "$ch" in
 esac
 git -C $W diff --stat | tail -1
 for p in "$@"; do
-  (cd /verif && VERIF_BUILD=/tmp/rw_build VERIF_EVIDENCE=/tmp/rw_build/evidence VERIF_REPO=$W python3 run.py check $p ${TIER:+--tier $TIER} | grep -E "^(VIOLATION|INCONCLUSIVE|OK|KNOWN)" | cut -c1-300 | head -${LINES_MAX:-4}); true
+  (cd /verif && VERIF_BUILD=${W}_build VERIF_EVIDENCE=${W}_build/evidence VERIF_REPO=$W python3 run.py check $p ${TIER:+--tier $TIER} | grep -E "^(VIOLATION|INCONCLUSIVE|OK|KNOWN)" | cut -c1-300 | head -${LINES_MAX:-4}); true
 done
 git -C $W checkout -q -- .
